@@ -100,3 +100,55 @@ def loop_targets_with_origin(it: Interp, site: ast.AST, suffix: str) -> set[str]
 
 def fmt(node: Optional[ast.AST]) -> str:
     return short(unparse(node)) if node is not None else "<none>"
+
+
+def effect_table(ck: Checker, func: Func, domains: dict[str, list[str]], sites: list[ast.AST], describe: Callable[[Interp, ast.AST, object], str],
+                 extra_pins: Optional[dict[str, str]] = None, facts: Optional[dict[str, bool]] = None) -> dict[tuple[str, ...], frozenset[str]]:
+    """decision table of a classifier: for every assignment of the enum-valued paths in `domains` (universal pins) the
+    set of effect signatures (describe(...)) of the sites that are reachable"""
+    import itertools
+
+    keys = list(domains)
+    table: dict[tuple[str, ...], frozenset[str]] = {}
+    for combo in itertools.product(*[domains[k] for k in keys]):
+        vals = dict(zip(keys, combo))
+        vals.update(extra_pins or {})
+        it = ck.interp(func, Pins.of(vals=vals, facts=facts))
+        effects: set[str] = set()
+        for site in sites:
+            for st in it.states(site):
+                effects.add(describe(it, site, st))
+        table[combo] = frozenset(effects)
+    return table
+
+
+def enum_members(enum: str) -> list[str]:
+    from ..interp import load_enums
+
+    return [f"{enum}.{m}" for m in load_enums()[enum]]
+
+
+def single_def(func: Func, name: str) -> Optional[ast.expr]:
+    """the value of the only assignment to local `name` in func (None if not exactly one)"""
+    vals = []
+    for node in find_nodes(func.node, lambda n: isinstance(n, (ast.Assign, ast.AnnAssign))):
+        target = node.target if isinstance(node, ast.AnnAssign) else (node.targets[0] if len(node.targets) == 1 else None)  # type: ignore[attr-defined]
+        if isinstance(target, ast.Name) and target.id == name and node.value is not None:  # type: ignore[attr-defined]
+            vals.append(node.value)  # type: ignore[attr-defined]
+    return vals[0] if len(vals) == 1 else None
+
+
+def inline_displays(func: Func, node: ast.expr, depth: int = 0) -> ast.expr:
+    """replace names that are defined exactly once by a list/tuple display with that display (displays are not
+    aliased by the interpreter because their text does not identify the object)"""
+    import copy
+
+    class T(ast.NodeTransformer):
+        def visit_Name(self, n: ast.Name) -> ast.AST:
+            if isinstance(n.ctx, ast.Load) and depth < 4:
+                val = single_def(func, n.id)
+                if isinstance(val, (ast.List, ast.Tuple)) and val.elts:
+                    return inline_displays(func, copy.deepcopy(val), depth + 1)
+            return n
+
+    return T().visit(copy.deepcopy(node))
